@@ -96,11 +96,26 @@ def build(case):
         lo, hi = case["lo"], case["hi"]
         if fam:
             n = len(case["a"])
-            return cls(lo, hi), lo, hi, (np.array(case["a"], dtype=np.float64), np.array(case["b"][:n] + [1.0] * (n - len(case["b"][:n])), dtype=np.float64))
+            a = np.array(case["a"], dtype=np.float64)
+            b = np.array(case["b"][:n] + [1.0] * (n - len(case["b"][:n])), dtype=np.float64)
+            variant = case.get("variant", 1)
+            if variant == 2:  # location fixed by the constructor, scales delayed
+                return cls(lo, hi, case["a0"], None), lo, hi, (b,)
+            if variant == 3:  # scale fixed by the constructor, locations delayed
+                return cls(lo, hi, None, case["b0"]), lo, hi, (a,)
+            return cls(lo, hi), lo, hi, (a, b)
         return cls(lo, hi, case["a"][0], case["b"][0]), lo, hi, ()
     if k == "binomial":
         if fam:
             ps = np.array(case["ps"], dtype=np.float64)
+            variant = case.get("variant", 1)
+            if variant == 2:  # p fixed, n delayed
+                ns = np.array(case["ns"], dtype=np.int32)
+                return M.Binomial(None, case["p"]), 0, (min(case["ns"]) if case["ns"] else -1), (ns,)
+            if variant == 3:  # both delayed
+                m = min(len(case["ns"]), len(case["ps"]))
+                ns = np.array(case["ns"][:m], dtype=np.int32)
+                return M.Binomial(), 0, (min(case["ns"][:m]) if m else -1), (ns, ps[:m])
             return M.Binomial(case["n"]), 0, case["n"], (ps,)
         return M.Binomial(case["n"], case["p"]), 0, case["n"], ()
     if k == "bernoulli":
@@ -210,16 +225,20 @@ def run_case(case):
             raise
         raise Violation("C19/py/%s/decoding_arbitrary_words_failed" % kind, "%s %s" % (type(e).__name__, str(e)[:200]))
     got = [int(x) for x in np.atleast_1d(got)]
-    hi_eff = hi
+    per_symbol = None
     if fam and case["kind"] == "uniform":
-        # per-symbol sizes: each decoded symbol is bounded by its own size
-        bad = [g for g, s in zip(got, case["sizes"]) if not (0 <= g < s)]
+        per_symbol = [sz - 1 for sz in case["sizes"]]
+    elif fam and case["kind"] == "binomial" and case.get("variant", 1) in (2, 3):
+        per_symbol = list(case["ns"])
+    if per_symbol is not None:
+        # each decoded symbol is bounded by the support of its own model
+        bad = [g for g, h in zip(got, per_symbol) if not (0 <= g <= h)]
     else:
-        bad = [g for g in got if not (lo <= g <= hi_eff)]
+        bad = [g for g in got if not (lo <= g <= hi)]
     if bad:
         raise Violation("C19/py/%s/decoded_symbol_outside_support" % kind, "decoded %s from %s; support %d..%d" % (got, words, lo, hi))
     # ---- the neighbours of the support are refused ---------------------------------------------
-    if not (fam and case["kind"] == "uniform"):
+    if per_symbol is None:
         for bad_sym in (lo - 1, hi + 1):
             if bad_sym < I32_MIN or bad_sym > I32_MAX:
                 continue
@@ -345,27 +364,51 @@ def quantized_case(draw):
     spar = hfloat if draw(st.integers(0, 2)) == 0 else st.floats(min_value=1e-3, max_value=50.0)
     a = draw(st.lists(par, min_size=n, max_size=n))
     b = draw(st.lists(spar, min_size=n, max_size=n))
-    return {"kind": kind, "family": fam, "lo": lo, "hi": hi, "a": a, "b": b, "offs": draw(offs), "words": draw(words), "expect_valid": False}
+    case = {"kind": kind, "family": fam, "lo": lo, "hi": hi, "a": a, "b": b, "offs": draw(offs), "words": draw(words), "expect_valid": False}
+    if fam:
+        case["variant"] = draw(st.integers(1, 3))
+        case["a0"] = draw(par)
+        case["b0"] = draw(spar)
+    return case
 
 
 INVALID_P = [float("nan"), float("inf"), float("-inf"), -1.0, 1.5, -1e-10, 1.0000000000000002, 1e300, -5e-324]
 
 
+def binomial_n_limit(ps):
+    """Largest n for which the `probability` crate's Binomial is known to terminate for every valid p in `ps`.
+
+    Third-party limits, not constructors of this library (the repository's own test `leakily_quantized_binomial`
+    carries the note "<Binomial as Inverse>::inverse currently doesn't terminate" for some parameters):
+    `inverse` sums the mass function starting from q^n or p^n and never terminates when that power underflows
+    to zero (e.g. n = 997, p = 0.43, a quantile in the upper tail); for n >= 1000 it switches to a Newton iteration
+    without termination guarantee; and the cumulative distribution function needs minutes when n is large and p
+    is within 1e-15 of 0 or 1. Invalid p (NaN, < 0, > 1) does not constrain n: it has to be refused whatever n is."""
+    lim = 999
+    for p in ps:
+        if isinstance(p, float) and 0.0 < p < 1.0:
+            m = min(p, 1.0 - p)
+            if 0.0 < m < 1.0:
+                lim = min(lim, int(300.0 / -math.log10(m)))
+    return max(1, lim)
+
+
 @st.composite
 def binomial_case(draw):
     fam = draw(st.booleans())
-    n = draw(st.one_of(st.integers(-3, 60), st.sampled_from([I32_MIN, -1, 0, 1, 2, 2 ** 24, 2 ** 24 + 1, I32_MAX]), st.integers(1, 2000)))
-    if n > 100:
-        # the cumulative distribution function of the `probability` crate (regularised incomplete beta function of
-        # the `special` crate) needs minutes for a single evaluation when n is large and p is within ~1e-15 of 0 or 1
-        # (e.g. n = 1963, p = 0.9999999999999999): a third-party numerical routine, not a constructor of this
-        # library, so large n is paired with moderate p (or with invalid p, which must be refused whatever n is)
-        p = st.one_of(st.sampled_from(INVALID_P), st.floats(min_value=0.001, max_value=0.999))
-    else:
-        p = hfloat if draw(st.integers(0, 2)) == 0 else st.floats(min_value=0.0, max_value=1.0)
+    variant = draw(st.integers(1, 3)) if fam else 0
+    pstrat = hfloat if draw(st.integers(0, 2)) == 0 else st.floats(min_value=0.0, max_value=1.0)
+    ps = draw(st.lists(pstrat, min_size=0, max_size=5)) if fam else []
+    p = draw(pstrat)
+    lim = binomial_n_limit(ps + [p])
+    nstrat = st.one_of(st.integers(-3, min(60, lim)), st.sampled_from([I32_MIN, -1, 0, 1, 2 ** 24, 2 ** 24 + 1, I32_MAX]), st.integers(1, lim))
+    case = {"kind": "binomial", "family": fam, "n": draw(nstrat), "p": p, "offs": draw(offs), "words": draw(words)}
     if fam:
-        return {"kind": "binomial", "family": True, "n": n, "ps": draw(st.lists(p, min_size=0, max_size=5)), "offs": draw(offs), "words": draw(words)}
-    return {"kind": "binomial", "family": False, "n": n, "p": draw(p), "offs": draw(offs), "words": draw(words)}
+        case["variant"] = variant
+        case["ps"] = ps
+        if variant in (2, 3):
+            case["ns"] = draw(st.lists(nstrat, min_size=0, max_size=5))
+    return case
 
 
 @st.composite
